@@ -68,6 +68,12 @@ def rule_framing(ctx: Ctx):
     site, spec = _h(ctx, L, "unframe._unframe.on_subscribe")
     r.instances += 1
     rdelim = None
+    carry_names = set()
+    for p in ctx.paths(spec, None, {}, max_iter=1):
+        carry_names |= {e.name for e in p.trace if e.k == "nonlocal"}
+    if len(carry_names) != 1:
+        raise AnalysisError("line.unframe: expected one closure variable holding the unterminated remainder, found %s" % sorted(carry_names))
+    CARRY = next(iter(carry_names))
     for p in ctx.paths(spec, None, {}, max_iter=1):
         r.paths += 1
         if not _normal(p):
@@ -81,24 +87,32 @@ def rule_framing(ctx: Ctx):
         lines = splits[0].result
         # carry-over prepended to the first piece
         pre = [e for e in p.trace if e.k == "substore" and e.base == lines and e.index == ("const", 0)]
-        ok = len(pre) == 1 and pre[0].value[0] == "binop" and pre[0].value[1] == "Add" and pre[0].value[2][0] == "free" and pre[0].value[2][1] == "acc" \
+        ok = len(pre) == 1 and pre[0].value[0] == "binop" and pre[0].value[1] == "Add" and pre[0].value[2][0] == "free" and pre[0].value[2][1] == CARRY \
             and pre[0].value[3][0] == "sub" and pre[0].value[3][1] == lines and pre[0].value[3][2] == ("const", 0)
         r.ob(ok, lambda: mk_finding("FR-1", spec, None, {}, p,
-                                    "the carry-over of the previous chunk must be prepended to the first piece of the new chunk (acc + lines[0]); "
+                                    "the carry-over of the previous chunk must be prepended to the first piece of the new chunk (carry + lines[0]); "
                                     "writes: %s" % [e.brief() for e in pre], extra="prepend"))
-        # new carry-over = last piece, on every path, after the prepend
-        nl = [e for e in p.trace if e.k == "nonlocal" and e.name == "acc"]
-        ok = len(nl) == 1 and any(x[0] == "sub" and x[1] == lines and x[2] == ("const", -1) for x in subterms(nl[0].value)) and \
-            (not pre or p.trace.index(nl[0]) > p.trace.index(pre[0]))
+        # new carry-over = last piece (lines[-1] or lines.pop()), on every path, after the prepend
+        nl = [e for e in p.trace if e.k == "nonlocal" and e.name == CARRY]
+        pops = [e for e in p.trace if e.k == "mutate" and e.base == lines and e.method == "pop" and not e.args]
+
+        def is_last_piece(v):
+            if any(x[0] == "sub" and x[1] == lines and x[2] == ("const", -1) for x in subterms(v)):
+                return True
+            return any(x == e.result for e in pops for x in subterms(v))
+        ok = len(nl) == 1 and is_last_piece(nl[0].value) and (not pre or p.trace.index(nl[0]) > p.trace.index(pre[0]))
         r.ob(ok, lambda: mk_finding("FR-1", spec, None, {}, p, "the last (unterminated) piece must become the new carry-over; assignments: %s" % [e.brief() for e in nl], extra="carry"))
         # complete lines: all pieces but the last, each emitted once, in order
         loops = [e for e in p.trace if e.k == "loopiter"]
         if loops:
             it = loops[0].iter
             ok = it[0] == "sub" and it[1] == lines and it[2][0] == "slice" and it[2][1] in (None, ("const", 0)) and it[2][2] == ("const", -1)
+            if not ok and it == lines:
+                # the last piece was popped off before the loop
+                ok = bool(pops) and p.trace.index(pops[0]) < p.trace.index(loops[0])
             ems = [m for m in emissions(p) if m.method == "on_next"]
             ok = ok and len(ems) == 1 and ems[0].eff.arg[0] == "loopvar"
-            r.ob(ok, lambda: mk_finding("FR-1", spec, None, {}, p, "every piece but the last must be emitted once, in order (lines[0:-1]); loop over %s emits %s" % (show(it), summary(p)), extra="emit"))
+            r.ob(ok, lambda: mk_finding("FR-1", spec, None, {}, p, "every piece but the last must be emitted once, in order; loop over %s emits %s" % (show(it), summary(p)), extra="emit"))
     r.ob(wdelim is not None and wdelim == rdelim, lambda: Finding(
         "FR-1", "%s{delimiter}" % L, L + ":1", "frame writes the delimiter %r but unframe splits on %r" % (wdelim, rdelim)))
     site, spec = _h(ctx, L, "unframe._unframe.on_subscribe", "on_completed")
@@ -114,19 +128,19 @@ def rule_framing(ctx: Ctx):
                 nf = normalise_cmp(e.test, e.outcome)
                 if nf is not None and len(nf[1]) == 1 and nf[1][0][0][0] == "call" and nf[1][0][0][1] == ("builtin", "len"):
                     op, co, c = nf
-                    s = 1 if co[0][1] > 0 else -1
-                    op2 = op if s == 1 else {"GtE": "LtE", "LtE": "GtE", "Gt": "Lt", "Lt": "Gt"}.get(op, op)
-                    c2 = c * s
+                    s_ = 1 if co[0][1] > 0 else -1
+                    op2 = op if s_ == 1 else {"GtE": "LtE", "LtE": "GtE", "Gt": "Lt", "Lt": "Gt"}.get(op, op)
+                    c2 = c * s_
                     if (op2 == "Gt" and c2 == 0) or (op2 == "GtE" and c2 == -1) or (op2 == "NotEq" and c2 == 0):
                         nonempty = True
                     elif (op2 == "LtE" and c2 == 0) or (op2 == "Lt" and c2 == -1) or (op2 == "Eq" and c2 == 0):
                         nonempty = False
-                elif e.test[0] == "free" and e.test[1] == "acc":
+                elif e.test[0] == "free" and e.test[1] == CARRY:
                     nonempty = e.outcome
             if nonempty is None:
                 r.ob(False, lambda: mk_finding("FR-1", spec, None, {}, p, "completion does not test whether a remainder is pending", extra="flush-test"))
             elif nonempty:
-                ok = len(ems) == 2 and ems[0].method == "on_next" and ems[0].eff.arg[0] == "free" and ems[0].eff.arg[1] == "acc" and ems[1].method == "on_completed"
+                ok = len(ems) == 2 and ems[0].method == "on_next" and ems[0].eff.arg[0] == "free" and ems[0].eff.arg[1] == CARRY and ems[1].method == "on_completed"
                 r.ob(ok, lambda: mk_finding("FR-1", spec, None, {}, p, "a pending remainder must be delivered before completion; the handler does: %s" % summary(p), extra="flush"))
             else:
                 ok = len(ems) == 1 and ems[0].method == "on_completed"
@@ -166,41 +180,54 @@ def rule_framing(ctx: Ctx):
     r2.instances += 1
     rc.instances += 1
     seen_avail = seen_payload = False
+    carry_names = set()
+    for p in ctx.paths(spec, None, {}, max_iter=1):
+        carry_names |= {e.name for e in p.trace if e.k == "nonlocal"}
+    if len(carry_names) != 1:
+        raise AnalysisError("length_prefix.unframe: expected one closure variable holding the unconsumed bytes, found %s" % sorted(carry_names))
+    CARRY = next(iter(carry_names))
+
+    def is_size(k):
+        return k[0] == "mcall" and k[2] == "from_bytes"
+
+    def is_prefix(k):
+        return k[0] == "param" and k[1] == "prefix_size"
     for p in ctx.paths(spec, None, {}, max_iter=1):
         r2.paths += 1
         rc.paths += 1
         if not _normal(p):
             continue
         writes = [e for e in p.trace if e.k == "mutate" and e.method == "write"]
-        ok = len(writes) == 2 and writes[0].args[0][0] == "free" and writes[0].args[0][1] == "acc" and writes[1].args[0] == EV and writes[0].base == writes[1].base
+        ok = len(writes) == 2 and writes[0].args[0][0] == "free" and writes[0].args[0][1] == CARRY and writes[1].args[0] == EV and writes[0].base == writes[1].base
         r2.ob(ok, lambda: mk_finding("FR-2", spec, None, {}, p, "the buffer must hold the carry-over followed by the new chunk; writes: %s" % [e.brief() for e in writes], extra="buffer"))
         if not writes:
             continue
         buf = writes[0].base
-        blen = [x for e in p.trace if e.k in ("decision",) for x in subterms(e.test) if x[0] == "call" and x[1] == ("builtin", "len")]
-        sizes = [e for e in p.trace if e.k == "call" and e.func == ("glob", "int.from_bytes") or (e.k == "call" and e.d.get("method") == "from_bytes")]
-        for e in p.trace:
+        for pos, e in enumerate(p.trace):
             if e.k != "decision":
                 continue
-            nf = normalise_cmp(e.test, True)
-            if nf is None:
+            nf0 = normalise_cmp(e.test, True)
+            if nf0 is None:
                 continue
-            op, co, c = nf
+            co0 = dict(nf0[1])
+            ps = [k for k in co0 if is_prefix(k)]
+            sz = [k for k in co0 if is_size(k)]
+            others = [k for k in co0 if not is_prefix(k) and not is_size(k)]
+            if not ps or len(others) != 1:
+                continue
+            # what follows decides whether this outcome means 'enough bytes': the loop goes on / the frame is emitted
+            nxt = next((x for x in p.trace[pos + 1:] if x.k in ("loopiter", "loopexit", "emit")), None)
+            enough = nxt is not None and (nxt.k in ("loopiter", "emit") or (nxt.k == "loopexit" and nxt.d.get("cut")))
+            op, co, c = normalise_cmp(e.test, e.outcome)
             co = dict(co)
-            ln = [k for k in co if k[0] == "call" and k[1] == ("builtin", "len")]
-            ps = [k for k in co if k[0] == "param" and k[1] == "prefix_size"]
-            sz = [k for k in co if k[0] == "mcall" and k[2] == "from_bytes"]
-            if len(ln) != 1 or not ps:
-                continue
-            s = 1 if co[ln[0]] > 0 else -1
-            op2 = op if s == 1 else {"GtE": "LtE", "LtE": "GtE", "Gt": "Lt", "Lt": "Gt"}.get(op, op)
+            ln = others[0]
+            s_ = 1 if co[ln] > 0 else -1
+            op2 = op if s_ == 1 else {"GtE": "LtE", "LtE": "GtE", "Gt": "Lt", "Lt": "Gt"}.get(op, op)
             # available = len - consumed, consumed = k*prefix_size + (sizes of the k delivered frames)
             # prefix test :  len - (k+1)*prefix_size - sum(k sizes)   >= 0
             # payload test:  len - (k+1)*prefix_size - sum(k+1 sizes) >= 0
-            cp = -co[ps[0]] * s
-            sizes_ok = all(co[k] * s == -1 for k in sz)
-            others = [k for k in co if k is not ln[0] and k is not ps[0] and k not in sz]
-            consumed_ok = not others and co[ln[0]] * s == 1
+            cp = -co[ps[0]] * s_
+            shape = co[ln] * s_ == 1 and all(co[k] * s_ == -1 for k in sz) and c == 0
             if cp == len(sz) + 1:
                 what = "prefix"
                 seen_avail = True
@@ -208,14 +235,15 @@ def rule_framing(ctx: Ctx):
                 what = "payload"
                 seen_payload = True
             else:
-                what = "prefix" if not sz else "payload"
-                sizes_ok = False
-            shape = sizes_ok
-            rc.groups.add((what, len(rc.groups)))
-            rc.ob(op2 == "GtE" and shape and consumed_ok, lambda e=e, what=what, op2=op2: mk_finding(
+                what = "payload" if sz else "prefix"
+                shape = False
+            want = "GtE" if enough else "Lt"
+            rc.groups.add((what, enough, len(rc.groups)))
+            rc.ob(op2 == want and shape, lambda e=e, what=what, op2=op2, enough=enough: mk_finding(
                 "CMP-2", spec, None, {}, p,
-                "the 'enough bytes for the %s' test '%s' must be  available - needed >= 0  (inclusive): with %s a frame that ends exactly at the "
-                "end of the buffer is not delivered until more data arrives (or never, at the end of the stream)" % (what, show(e.test), op2),
+                "the 'enough bytes for the %s' test '%s' (taken %s, %s) must amount to  available - needed >= 0  (inclusive): here the relation that holds is "
+                "'buffer length ... %s 0'; a frame that ends exactly at the end of the buffer is not delivered until more data arrives (or never, at the end "
+                "of the stream)" % (what, show(e.test), e.outcome, "frame delivered / loop continues" if enough else "loop left", op2),
                 node=e.node, extra=what))
         # the parsed size uses prefix_size bytes and the byteorder parameter
         for e in p.trace:
@@ -230,11 +258,11 @@ def rule_framing(ctx: Ctx):
                 v = mm.eff.arg
                 ok = v[0] == "mcall" and v[1] == buf and v[2] == "read" and v[3] and v[3][0][0] == "mcall" and v[3][0][2] == "from_bytes"
                 r2.ob(ok, lambda v=v: mk_finding("FR-2", spec, None, {}, p, "the emitted frame must be exactly 'size' bytes read after the prefix; emitted %s" % show(v), extra="payload"))
-        # carry-over: seek(consumed) then acc = read()
+        # carry-over: seek(consumed) then carry = read()
         if p.truncated:
             continue
         seeks = [e for e in p.trace if e.k == "mutate" and e.method == "seek" and e.base == buf]
-        nl = [e for e in p.trace if e.k == "nonlocal" and e.name == "acc"]
+        nl = [e for e in p.trace if e.k == "nonlocal" and e.name == CARRY]
         n_emitted = len([1 for mm in emissions(p) if mm.method == "on_next"])
         ok = len(nl) == 1 and nl[0].value[0] == "mcall" and nl[0].value[1] == buf and nl[0].value[2] == "read" and not [a for a in nl[0].value[3]]
         ok = ok and bool(seeks) and p.trace.index(seeks[-1]) < p.trace.index(nl[0])
@@ -243,12 +271,12 @@ def rule_framing(ctx: Ctx):
             ok = f is not None
             if ok:
                 co = dict(f[0])
-                szs = [k for k in co if k[0] == "mcall" and k[2] == "from_bytes"]
-                pss = [k for k in co if k[0] == "param" and k[1] == "prefix_size"]
+                szs = [k for k in co if is_size(k)]
+                pss = [k for k in co if is_prefix(k)]
                 if n_emitted == 0:
                     ok = not co and f[1] == 0
                 else:
-                    ok = len(szs) == n_emitted and all(co[k] == 1 for k in szs) and len(pss) == 1 and co[pss[0]] == n_emitted and f[1] == 0
+                    ok = len(szs) == n_emitted and all(co[k] == 1 for k in szs) and len(pss) == 1 and co[pss[0]] == n_emitted and f[1] == 0 and len(co) == len(szs) + 1
         r2.ob(ok, lambda: mk_finding("FR-2", spec, None, {}, p,
                                      "after parsing, exactly the unconsumed bytes (from offset = sum of prefix_size + size of the delivered frames) must become "
                                      "the carry-over; seeks: %s, carry-over: %s" % ([e.brief() for e in seeks[-1:]], [e.brief() for e in nl]), extra="carry"))
@@ -384,6 +412,8 @@ def rule_compression(ctx: Ctx):
                 "z.%s and zstd.%s differ in their %s handler: z %s vs zstd %s" % (fname, fname, which, a, b)))
     # AG-5 wbits
     zm = ctx.program.module("rxsci/compression/z.py")
+    global _WBITS_MODULE
+    _WBITS_MODULE = zm
     wb = {}
     for n in ast.walk(zm.tree):
         if isinstance(n, ast.Call) and dotted_name(n.func) in ("zlib.compressobj", "zlib.decompressobj"):
@@ -403,11 +433,18 @@ def rule_compression(ctx: Ctx):
     return [r1, r3, r5]
 
 
+_WBITS_MODULE = None
+
+
 def _fold_wbits(node):
     if isinstance(node, ast.Constant) and isinstance(node.value, int):
         return node.value
     if isinstance(node, ast.Attribute) and dotted_name(node) == "zlib.MAX_WBITS":
         return 15
+    if isinstance(node, ast.Name) and _WBITS_MODULE is not None:
+        b = _WBITS_MODULE.bindings.get(node.id)
+        if b is not None and b[0] == "assign" and _WBITS_MODULE.bind_count.get(node.id, 0) == 1:
+            return _fold_wbits(b[1])
     if isinstance(node, ast.BinOp):
         a, b = _fold_wbits(node.left), _fold_wbits(node.right)
         if a is None or b is None:
@@ -447,9 +484,21 @@ def rule_codec(ctx: Ctx):
         r.ob(made, lambda: Finding("CD-1", "%s::%s{codec-object}" % (rel, fname), site.where(),
                                    "with incremental=True one %s()(...) object must be created per subscription from the encoding parameter" % getter))
         for which in ("on_next", "on_completed"):
-            spec = site.handler_specs(which)[0]
             for cfg in ({"incremental": "True"}, {"incremental": "False"}):
                 inc = cfg["incremental"] == "True"
+                ref = ctx.handlers_for(site, cfg).get(which, ("absent",))
+                if ref[0] == "forward":
+                    # observer.on_completed wired directly: nothing is emitted at completion
+                    r.paths += 1
+                    ok = which == "on_completed" and not inc and ref[1] == ("obs", "down") and ref[2] == "on_completed"
+                    r.ob(ok, lambda: Finding("CD-1", "%s::%s{%s-forward}" % (rel, fname, which), site.where(),
+                                             "%s(incremental=%s): %s is forwarded directly although %s" % (
+                                                 fname, inc, which, "the incremental codec must be flushed at completion" if inc else "items must be converted")))
+                    sk.setdefault((which, cfg_str(cfg)), {})[fname] = ["inc" if inc else "plain", 0, ["on_completed"]]
+                    continue
+                if ref[0] != "fn":
+                    raise AnalysisError("%s::%s: cannot resolve the %s handler for incremental=%s" % (rel, fname, which, inc))
+                spec = ref[1]
                 for p in ctx.paths(spec, None, cfg):
                     r.paths += 1
                     r.groups.add((fname, which, cfg_str(cfg)))
